@@ -40,7 +40,7 @@ pub struct Feat {
 }
 
 /// depths of a random complete prefix code with `n >= 2` leaves and depth <= `maxd`
-fn complete_depths(rng: &mut Rng, n: usize, maxd: u8) -> Vec<u8> {
+pub fn complete_depths(rng: &mut Rng, n: usize, maxd: u8) -> Vec<u8> {
     let mut d: Vec<u8> = vec![1, 1];
     let skew = rng.below(3); // 0 balanced-ish, 1 random, 2 deep
     while d.len() < n {
